@@ -25,7 +25,7 @@ from datetime import date, datetime, time, timedelta
 from decimal import Decimal
 import ponyutil
 ponyutil.add_stubs()
-from pony.orm import Database, Required, Optional, PrimaryKey, Set, Json, db_session, select
+from pony.orm import Database, Required, Optional, PrimaryKey, Set, Json, db_session, select, group_concat
 from pony.orm.sqlbuilding import Value, SQLBuilder, Param
 from pony.orm.dbapiprovider import DBAPIProvider
 from pony.orm.dbproviders.sqlite import SQLiteValue, SQLiteBuilder
@@ -1228,6 +1228,103 @@ def param_eval_tie(ctx, strings):
     con.close(); db.disconnect()
 
 
+def group_concat_separators(ctx, strings):
+    """the separator a program passes to group_concat - Query.group_concat, top-level group_concat(gen, sep), in-query
+    group_concat(x, sep=...) non-grouped, grouped, over a collection attribute, over a sub-generator - is rendered inline as a literal:
+    the database must join with exactly that string (the empty string included); real SQLite vs Python, plus the literal in the SQL text of
+    the PostgreSQL / MySQL / Oracle translations"""
+    import itertools as _it
+    rng = ctx.rng
+    seps = ['', ',', ', ', '-', "'", "''", '"', '%', '%%', '%s', '%(p1)s', '\\', "\\'", '!', '_', '?', ':p1', ' ', '\n', 'é', '\U0001F600', 'ab', "x'y%z", '0', 'None']
+    more = [x for x in strings if len(x) <= 4 and '\x00' not in x]; rng.shuffle(more)
+    seps = list(dict.fromkeys(seps + more[:ctx.scale(15, 300)]))
+    db = Database()
+    class G(db.Entity):
+        k = Required(int)
+        items = Set('T')
+    class T(db.Entity):
+        name = Required(str, autostrip=False)
+        g = Required(G)
+    db.bind('sqlite', ':memory:')
+    db.generate_mapping(create_tables=True)
+    groups = {1: ['a', "b'%"], 2: ['c,d']}
+    with db_session:
+        for k, names in groups.items():
+            g = G(k=k)
+            for n in names: T(name=n, g=g)
+    allnames = [n for k in sorted(groups) for n in groups[k]]
+    def joins(names, sep): return {sep.join(p) for p in _it.permutations(names)}
+    def sel(src): return select(src, {'T': T, 'G': G, 'group_concat': group_concat})
+    with db_session:
+        ids = {t.name: str(t.id) for t in T.select()}
+        for sep in seps:
+            r = repr(sep)
+            forms = [
+                ('Query.group_concat(sep=s)', lambda: select(t.name for t in T).group_concat(sep=sep), lambda got: got in joins(allnames, sep)),
+                ('Query.group_concat(s) positional', lambda: select(t.name for t in T).group_concat(sep), lambda got: got in joins(allnames, sep)),
+                ('Query.group_concat on entities', lambda: select(t for t in T).group_concat(sep=sep), lambda got: got in joins([ids[n] for n in allnames], sep)),
+                ('group_concat(gen, sep=s)', lambda: group_concat((t.name for t in T), sep=sep), lambda got: got in joins(allnames, sep)),
+                ('select(group_concat(x, sep=const))', lambda: sel('group_concat(t.name, sep=%s) for t in T' % r)[:], lambda got: len(got) == 1 and got[0] in joins(allnames, sep)),
+                ('grouped: (key, group_concat(x, sep=const))', lambda: sorted(sel('(t.g.k, group_concat(t.name, sep=%s)) for t in T' % r)),
+                 lambda got: len(got) == len(groups) and all(k in groups and v in joins(groups[k], sep) for k, v in got)),
+                ('grouped over a collection attribute', lambda: sorted(sel('(g.k, group_concat(g.items.name, sep=%s)) for g in G' % r)),
+                 lambda got: len(got) == len(groups) and all(k in groups and v in joins(groups[k], sep) for k, v in got)),
+                ('grouped over two loops, positional sep', lambda: sorted(sel('(g.k, group_concat(t.name, %s)) for g in G for t in g.items' % r)),
+                 lambda got: len(got) == len(groups) and all(k in groups and v in joins(groups[k], sep) for k, v in got)),
+                ('group_concat of a sub-generator', lambda: sorted(sel('(g.k, group_concat((t.name for t in T if t.g == g), sep=%s)) for g in G' % r)),
+                 lambda got: len(got) == len(groups) and all(k in groups and v in joins(groups[k], sep) for k, v in got)),
+            ]
+            for what, run, ok in forms:
+                try: got = run(); good = ok(got); sql = ' '.join((db.last_sql or '').split())
+                except Exception as e: got = 'raised %s: %s' % (type(e).__name__, short(str(e), 80)); good = False; sql = None
+                ctx.case(['group-concat-sep', what, sep], kind='group-concat-sep:' + what.split('(')[0].split(':')[0].strip())
+                if sep == '': ctx.count('group-concat-sep:empty-separator')
+                if not good:
+                    ctx.violation('group_concat does not join with exactly the separator the program supplied (real SQLite)',
+                                  {'form': what, 'sep': sep, 'rows': groups, 'sql': sql}, observed=repr(got)[:200],
+                                  expected='the names joined by %r' % sep, key='group-concat-sep:%s:%s' % (what, json.dumps(sep if sep in ('', ',') else 'other')))
+    db.disconnect()
+    # dbGroupConcat / groupConcatArg vs real SQLite's group_concat with the separator bound as a parameter (and without one)
+    if ctx.driver.ok:
+        con = sqlite_con(); con.execute('CREATE TABLE x (v TEXT)')
+        for n in allnames: con.execute('INSERT INTO x VALUES (?)', (n,))
+        reals = []; reqs = []
+        for sep in [None] + seps:
+            reals.append(con.execute('SELECT group_concat(v) FROM x').fetchall()[0][0] if sep is None else con.execute('SELECT group_concat(v, ?) FROM x', (sep,)).fetchall()[0][0])
+            reqs.append({'op': 'group_concat', 'sep': sep, 'xs': allnames})
+        for r, real, out in zip(reqs, reals, ctx.driver('C06', reqs)):
+            ctx.case(['group-concat-model', r['sep']], kind='group-concat-model-vs-sqlite')
+            if out != real:
+                ctx.divergence('dbGroupConcat differs from real SQLite group_concat', [r['sep'], allnames], model=out, impl=real)
+        con.close()
+    # the other dialects offline: the separator must be in the SQL text as the literal quote_str renders, the empty string included
+    from pony.orm.tests.testutils import TestDatabase
+    for dialect in ('postgres', 'mysql', 'oracle'):
+        db = TestDatabase()
+        class G(db.Entity):
+            k = Required(int)
+            items = Set('T')
+        class T(db.Entity):
+            name = Required(str)
+            g = Required(G)
+        db.bind(dialect, ':memory:')
+        db.generate_mapping()
+        with db_session:
+            for sep in seps[:ctx.scale(30, 300)]:
+                lit = str(Value(db.provider.paramstyle, sep))
+                for what, mk in (('select(group_concat(x, sep=const))', lambda: select('group_concat(t.name, sep=%s) for t in T' % repr(sep), {'T': T, 'G': G, 'group_concat': group_concat}).get_sql()),
+                                 ('grouped: (key, group_concat(x, sep=const))', lambda: select('(t.g.k, group_concat(t.name, sep=%s)) for t in T' % repr(sep), {'T': T, 'G': G, 'group_concat': group_concat}).get_sql()),
+                                 ('Query.group_concat(sep=s)', lambda: (select(t.name for t in T).group_concat(sep=sep), db.sql)[1])):
+                    try: sql = mk()
+                    except Exception as e: sql = 'raised %s: %s' % (type(e).__name__, short(str(e), 80))
+                    ctx.case(['group-concat-sep-dialect', dialect, what, sep], kind='group-concat-sep-dialect:' + dialect)
+                    arg = (' SEPARATOR ' + lit + ')') if dialect == 'mysql' else (', ' + lit + ')')
+                    if arg not in sql:
+                        ctx.violation('the group_concat separator is not in the %s statement as the literal of exactly that string' % dialect,
+                                      {'dialect': dialect, 'form': what, 'sep': sep, 'sql': ' '.join(sql.split())}, observed=' '.join(sql.split())[:300],
+                                      expected='... %s' % arg, key='group-concat-sep-dialect:%s:%s' % (what, json.dumps(sep if sep in ('', ',') else 'other')))
+
+
 def canon_occ(occ):
     m = {}
     return [m.setdefault(k, len(m)) for k in occ]
@@ -1243,7 +1340,7 @@ def run(ctx):
     for name, f in [('literals', lambda: literals(ctx, strings)), ('mysql_witness', lambda: mysql_witness(ctx)), ('other_values', lambda: other_values(ctx)),
                     ('identifiers', lambda: identifiers(ctx, strings)), ('like_model_vs_sqlite', lambda: like_model_vs_sqlite(ctx)),
                     ('like_queries', lambda: like_queries(ctx, strings)), ('statements', lambda: statements(ctx, strings)),
-                    ('builder_text_tie', lambda: builder_text_tie(ctx)), ('structure', lambda: structure(ctx, strings)), ('typed_constants', lambda: typed_constants(ctx)), ('param_eval_queries', lambda: param_eval_queries(ctx, strings)), ('temporal_values', lambda: temporal_values(ctx)), ('param_eval_tie', lambda: param_eval_tie(ctx, strings))]:
+                    ('builder_text_tie', lambda: builder_text_tie(ctx)), ('structure', lambda: structure(ctx, strings)), ('typed_constants', lambda: typed_constants(ctx)), ('param_eval_queries', lambda: param_eval_queries(ctx, strings)), ('temporal_values', lambda: temporal_values(ctx)), ('param_eval_tie', lambda: param_eval_tie(ctx, strings)), ('group_concat_separators', lambda: group_concat_separators(ctx, strings))]:
         t0 = _t.time()
         try: f()
         except Exception as ex:
